@@ -32,7 +32,7 @@ import (
 
 type c36Seg struct {
 	Msgs  int    `json:"messages"`
-	Break string `json:"break"` // error | eof | hold (stay open until the client goes away)
+	Break string `json:"break"` // error | eof | canceled | internal | hold (stay open until the client goes away)
 }
 
 type c36Case struct {
@@ -101,6 +101,12 @@ func (s *c36Server) serve(ctx context.Context, req string, send func(id string) 
 	switch seg.Break {
 	case "eof":
 		return nil
+	case "canceled":
+		// the SERVER side ends the stream with code Canceled (a proxy reset, a cancelled server-side context); the
+		// caller did not cancel anything
+		return status.Error(codes.Canceled, "verif: scripted break (server side cancelled)")
+	case "internal":
+		return status.Error(codes.Internal, "verif: scripted break")
 	case "hold":
 		<-ctx.Done()
 		return ctx.Err()
@@ -357,7 +363,7 @@ func TestC36(t *testing.T) {
 			Method: []string{"WorkloadStatusStream", "WorkloadStatusStream", "WatchServiceStatus", "WatchServiceStatus", "ListPodNodes"}[r.Intn(5)]}
 		segs := 1 + r.Intn(4)
 		for k := 0; k < segs; k++ {
-			sg := c36Seg{Msgs: r.Intn(4), Break: []string{"error", "error", "eof"}[r.Intn(3)]}
+			sg := c36Seg{Msgs: r.Intn(4), Break: []string{"error", "error", "eof", "canceled", "internal"}[r.Intn(5)]}
 			if k > 0 && r.Intn(3) == 0 {
 				sg.Msgs = 0 // a reopen attempt that fails at once
 			}
